@@ -52,3 +52,15 @@ pub mod std {
     }
 }
 pub use crate::std::time::{SystemTime, UNIX_EPOCH};
+
+// anyhow glue for the clock error type
+impl<T> Context<T> for ::std::result::Result<T, std::time::SystemTimeError> {
+    #[verifier::external_body]
+    fn context(self, c: &'static str) -> (r: anyhow::Result<T>)
+        ensures (r is Ok) == (self is Ok), self is Ok ==> r->Ok_0 == self->Ok_0,
+    { unimplemented!() }
+}
+impl ::std::convert::From<std::time::SystemTimeError> for AnyErr {
+    #[verifier::external_body]
+    fn from(e: std::time::SystemTimeError) -> AnyErr { unimplemented!() }
+}
